@@ -11,7 +11,7 @@ CONSTANTS
   HfpTTL <- MC_HfpTTL
   Methods = {"GET"}
   TTLs = {2}
-  Outcomes = {"cacheable", "uncacheable", "error"}
+  Outcomes = {"cacheable", "uncacheable", "error", "timeout"}
   LoadResults = {"ok", "notfound"}
   SaveResults = {TRUE, FALSE}
   Jumps = {1}
